@@ -1,6 +1,7 @@
 package main
 
 import (
+	"crypto/sha1"
 	"fmt"
 	"math/rand"
 	"os"
@@ -74,11 +75,87 @@ func c06(c *Ctx) {
 	c.Rep.TieObs = []string{"O-compile.outcome (ok | panic | hang) of ParseString+Compose"}
 	c.Rep.Rule = "inputs: corpus, every .goht of the repo, hand-written corner seeds, generator files; every k-th prefix, single-byte deletions, structural-token insertions, splices, random bytes, size-scaling families; distinct = distinct input bytes; non-trivial = input reaches the template lexer (contains '@goht') or is a scaling family"
 	var inputs [][]byte
-	tag := map[int]string{}
+	var tags []string
+	seenHash := map[[20]byte]bool{}
+	timing := map[string]float64{}
+	var scaleIn [][]byte
+	var scaleTag []string
+	nProcessed := 0
+	start := time.Now()
+	// inputs are compiled and judged in bounded batches: the thorough tier generates gigabytes of them
+	flush := func() {
+		if len(inputs) == 0 {
+			return
+		}
+		pairs := c.compileBoth(inputs)
+		c.tieCompile(pairs, map[string]bool{"outcome": true})
+		for i, p := range pairs {
+			c.Rep.OracleCases++
+			nProcessed++
+			kind := tags[i]
+			if strings.HasPrefix(kind, "scale:") {
+				c.dist("input.scale")
+			} else {
+				c.dist("input." + kind)
+			}
+			c.dist("impl.outcome." + p.Impl.Outcome)
+			if p.Impl.Outcome == "ok" {
+				if p.Impl.Err == "-" {
+					c.dist("impl.accepted")
+				} else {
+					c.dist("impl.rejected")
+				}
+			}
+			if strings.Contains(string(p.Input), "@goht") || strings.HasPrefix(kind, "scale:") {
+				c.Rep.Distinct++ // inputs are already deduplicated by hash
+			}
+			if nProcessed%997 == 0 {
+				c.sample(map[string]string{"kind": kind, "input": clip(fmt.Sprintf("%q", p.Input), 200), "impl": p.Impl.Outcome + " " + p.Impl.Err})
+			}
+			if p.Impl.Outcome != "ok" {
+				// label with the lexer state the real code was in; shrink while the label is unchanged
+				label := c.diagnose(p.Input)
+				if strings.HasPrefix(label, "ok") {
+					label = p.Impl.Outcome + " parser-or-emitter"
+				}
+				min := p.Input
+				if len(p.Input) <= 4000 && len(c.Rep.Failures) < 12 {
+					budget := 60
+					min = shrink(p.Input, func(b []byte) bool {
+						if budget <= 0 {
+							return false
+						}
+						budget--
+						return c.diagnose(b) == label
+					})
+				}
+				f := strings.Fields(label)
+				sig := "C06/" + f[0] + "/" + strings.Join(f[1:], "_")
+				c.fail(sig, fmt.Sprintf("ParseString/Compose does not return (%s) on %s", label, clip(fmt.Sprintf("%q", min), 120)),
+					map[string]string{"input_hex": hx(min), "input": fmt.Sprintf("%q", min), "observed": label})
+			}
+		}
+		inputs, tags = nil, nil
+	}
+	pending := 0
 	add := func(kind string, bs ...[]byte) {
 		for _, b := range bs {
-			tag[len(inputs)] = kind
+			h := sha1.Sum(b)
+			if seenHash[h] {
+				continue
+			}
+			seenHash[h] = true
+			if strings.HasPrefix(kind, "scale:") {
+				scaleIn = append(scaleIn, b)
+				scaleTag = append(scaleTag, kind)
+			}
 			inputs = append(inputs, b)
+			tags = append(tags, kind)
+			pending += len(b) + 64
+			if pending > 48<<20 {
+				flush()
+				pending = 0
+			}
 		}
 	}
 	if c.Replay != "" {
@@ -87,7 +164,7 @@ func c06(c *Ctx) {
 	} else {
 		add("corpus", c.corpus()...)
 		seeds := append(gen.RepoSeeds(c.Repo), gen.ExtraSeeds()...)
-		valid := c.validFiles(c.N(12, 200), gen.Opts{NonASCII: true, ObjRefs: true, ClassExprs: true, AttributesCmd: true, ShorthandElse: true, StmtAfterBlock: true, AdvStatic: true}, 2, 4)
+		valid := c.validFiles(c.N(12, 80), gen.Opts{NonASCII: true, ObjRefs: true, ClassExprs: true, AttributesCmd: true, ShorthandElse: true, StmtAfterBlock: true, AdvStatic: true}, 2, 4)
 		seeds = append(seeds, valid...)
 		for _, s := range seeds {
 			add("seed", s)
@@ -129,80 +206,19 @@ func c06(c *Ctx) {
 			}
 		}
 	}
-	// dedupe
-	seen := map[string]bool{}
-	var uniq [][]byte
-	var utag []string
-	for i, in := range inputs {
-		if !seen[string(in)] {
-			seen[string(in)] = true
-			uniq = append(uniq, in)
-			utag = append(utag, tag[i])
-		}
-	}
-	start := time.Now()
-	pairs := c.compileBoth(uniq)
-	c.Rep.Notes = append(c.Rep.Notes, fmt.Sprintf("compiled %d inputs on both sides in %.1fs", len(uniq), time.Since(start).Seconds()))
-	c.tieCompile(pairs, map[string]bool{"outcome": true})
-	timing := map[string]float64{}
-	for i, p := range pairs {
-		c.Rep.OracleCases++
-		kind := utag[i]
-		if strings.HasPrefix(kind, "scale:") {
-			c.dist("input.scale")
-		} else {
-			c.dist("input." + kind)
-		}
-		c.dist("impl.outcome." + p.Impl.Outcome)
-		if p.Impl.Outcome == "ok" {
-			if p.Impl.Err == "-" {
-				c.dist("impl.accepted")
-			} else {
-				c.dist("impl.rejected")
-			}
-		}
-		if strings.Contains(string(p.Input), "@goht") || strings.HasPrefix(kind, "scale:") {
-			c.distinct(string(p.Input))
-		}
-		if i%997 == 0 {
-			c.sample(map[string]string{"kind": kind, "input": clip(fmt.Sprintf("%q", p.Input), 200), "impl": p.Impl.Outcome + " " + p.Impl.Err})
-		}
-		if p.Impl.Outcome != "ok" {
-			// label with the lexer state the real code was in; shrink while the label is unchanged
-			label := c.diagnose(p.Input)
-			if strings.HasPrefix(label, "ok") {
-				label = p.Impl.Outcome + " parser-or-emitter"
-			}
-			min := p.Input
-			if len(p.Input) <= 4000 && len(c.Rep.Failures) < 12 {
-				budget := 60
-				min = shrink(p.Input, func(b []byte) bool {
-					if budget <= 0 {
-						return false
-					}
-					budget--
-					return c.diagnose(b) == label
-				})
-			}
-			f := strings.Fields(label)
-			sig := "C06/" + f[0] + "/" + strings.Join(f[1:], "_")
-			c.fail(sig, fmt.Sprintf("ParseString/Compose does not return (%s) on %s", label, clip(fmt.Sprintf("%q", min), 120)),
-				map[string]string{"input_hex": hx(min), "input": fmt.Sprintf("%q", min), "observed": label})
-		}
-	}
+	flush()
+	c.Rep.Notes = append(c.Rep.Notes, fmt.Sprintf("compiled %d distinct inputs on both sides in %.1fs (bounded batches)", nProcessed, time.Since(start).Seconds()))
 	// supporting (non-proof) evidence: wall-clock of the scaling families on the implementation
 	if c.Replay == "" {
 		p := proc.New([]string{filepath.Join(c.Build, "worker")})
 		defer p.Kill()
-		for i, in := range uniq {
-			if strings.HasPrefix(utag[i], "scale:") {
-				t0 := time.Now()
-				_, err := p.Ask("C "+hx(in), 20*time.Second)
-				if err == nil {
-					timing[utag[i]] = time.Since(t0).Seconds()
-				} else {
-					timing[utag[i]] = -1
-				}
+		for i, in := range scaleIn {
+			t0 := time.Now()
+			_, err := p.Ask("C "+hx(in), 20*time.Second)
+			if err == nil {
+				timing[scaleTag[i]] = time.Since(t0).Seconds()
+			} else {
+				timing[scaleTag[i]] = -1
 			}
 		}
 		c.Rep.Supporting = map[string]any{"scaling_wall_s (implementation; -1 = no return within 20 s)": timing}
